@@ -52,6 +52,13 @@ func flowsToOpt(v ssa.Value, whole bool, sink func(call ssa.CallInstruction, arg
 						work = append(work, val)
 					}
 				}
+				// library calls whose result contains their first argument whole
+				switch calleeName(c) {
+				case "strings.Join", "bytes.Join":
+					if val := x.Value(); val != nil && len(args) > 0 && args[0] == cur {
+						work = append(work, val)
+					}
+				}
 			case *ssa.Phi:
 				work = append(work, x)
 			case *ssa.BinOp:
